@@ -7,6 +7,8 @@
 //	R <hexlist>        | <ok> <hexlist>          Split(Join(ss))
 //	N <frag> <hex> <ops> | n<ok>:<hex text>:<complete>;r<hex rest>;…   Scanner session; ops over {n,r};
 //	                     frag = reader fragmentation (0 whole, k>0 chunks of k bytes, -k seeded random)
+//
+// A panic inside the package is recorded as the output PANIC (after the observations made so far).
 package main
 
 import (
@@ -43,7 +45,17 @@ func (f *fragReader) Read(p []byte) (int, error) {
 	return n, nil
 }
 
-func exec(in string) string {
+// exec runs one case; a panic of the package (e.g. a transducer table that no longer covers a
+// state/class pair) is an observation ("PANIC"), not a crash of the harness.
+func exec(in string) (out string) {
+	var partial []string
+	if p := tr.Catch(func() { out = exec1(in, &partial) }); p != "" {
+		return strings.Join(append(partial, "PANIC"), ";")
+	}
+	return out
+}
+
+func exec1(in string, partial *[]string) string {
 	f := strings.Fields(in)
 	switch f[0] {
 	case "S":
@@ -62,6 +74,7 @@ func exec(in string) string {
 		fr := &fragReader{s: src, k: k, rng: tr.NewRand(uint64(len(src))*31 + uint64(-k))}
 		sc := shell.NewScanner(fr)
 		var out []string
+		defer func() { *partial = out }()
 		for _, op := range f[3] {
 			switch op {
 			case 'n':
